@@ -63,6 +63,8 @@ struct Env {
     now: u64,
     rng: Rng,
     replay: bool,
+    /// exhaustive mode: deterministic answers (submission succeeds?, status of every allocation)
+    fixed: Option<(bool, VerifStatus)>,
     profile: Profile,
     // --- scripts for the current op
     demand: BTreeMap<u32, Demand>,
@@ -90,6 +92,7 @@ impl Env {
             now: 0,
             rng: Rng::new(seed ^ 0xA170A110C),
             replay,
+            fixed: None,
             profile,
             demand: Default::default(),
             expected_queries: vec![],
@@ -130,6 +133,14 @@ impl VerifEnv for Env {
                     VerifSubmit::Err
                 }
             }
+        } else if let Some((ok, _)) = self.fixed {
+            if ok {
+                let id = self.next_alloc_id;
+                self.next_alloc_id += 1;
+                VerifSubmit::Ok(id.to_string())
+            } else {
+                VerifSubmit::Fail
+            }
         } else if self.rng.chance(self.profile.p_fail, 100) {
             if self.rng.chance(1, 4) { VerifSubmit::Err } else { VerifSubmit::Fail }
         } else if !self.known_ids.is_empty() && self.rng.chance(self.profile.p_dup, 100) {
@@ -163,6 +174,8 @@ impl VerifEnv for Env {
                 ),
                 None => Some(ids.iter().map(|_| VerifStatus::Queued).collect()),
             }
+        } else if let Some((_, st)) = self.fixed {
+            Some(ids.iter().map(|_| st).collect())
         } else if self.rng.chance(self.profile.p_callerr, 100) {
             None
         } else {
@@ -514,6 +527,117 @@ struct AllocShadow {
     conn: BTreeSet<u32>,
     /// distinct workers lost while Running
     lost: BTreeSet<u32>,
+}
+
+thread_local! {
+    /// transition-class hit table (printed to stderr by `gen --cover`)
+    static COVER: RefCell<BTreeMap<String, u64>> = const { RefCell::new(BTreeMap::new()) };
+}
+
+fn hit(class: String) {
+    COVER.with(|c| *c.borrow_mut().entry(class).or_insert(0) += 1);
+}
+
+fn kind(s: &VerifAllocState) -> &'static str {
+    match s {
+        VerifAllocState::Queued { .. } => "Queued",
+        VerifAllocState::Running { .. } => "Running",
+        VerifAllocState::Finished { .. } => "Finished",
+        VerifAllocState::FinishedUnexpectedly { .. } => "FinishedUnexpectedly",
+    }
+}
+
+/// records which transition class an op exercised (pre-state class x input class)
+fn cover(op: &Op, pre: &VerifSnapshot, post: &VerifSnapshot, env: &Env, resp_ok: bool, tick_res: Option<Option<bool>>) {
+    let state_of = |a: &str| -> &'static str {
+        match pre.allocation_to_queue.iter().find(|(x, _)| x == a) {
+            None => "unknown-allocation",
+            Some((_, q)) => queue_of(pre, *q).and_then(|q| alloc_of(q, a)).map(|x| kind(&x.state)).unwrap_or("dangling"),
+        }
+    };
+    match op {
+        Op::WConn { a, .. } => hit(format!("worker-connect x {}", state_of(&a.to_string()))),
+        Op::WLost { a, reason, life, .. } => {
+            let crashed = matches!(reason, LostWorkerReason::ConnectionLost | LostWorkerReason::HeartbeatLost) && *life <= 60_000;
+            hit(format!("worker-lost({}) x {}", if crashed { "crash" } else { "normal" }, state_of(&a.to_string())));
+            let a_str = a.to_string();
+            if let Some((_, q)) = pre.allocation_to_queue.iter().find(|(x, _)| *x == a_str) {
+                let before = queue_of(pre, *q).and_then(|q| alloc_of(q, &a_str)).map(|x| kind(&x.state));
+                let after = queue_of(post, *q).and_then(|q| alloc_of(q, &a_str)).map(|x| kind(&x.state));
+                if before == Some("Running") && after == Some("Finished") {
+                    hit("worker-lost: Running -> Finished (target reached)".to_string());
+                }
+            }
+        }
+        Op::Refresh => {
+            if env.status_log.is_empty() {
+                hit("refresh x nothing-to-ask".to_string());
+            }
+            for (q, ids, r) in &env.status_log {
+                for (i, id) in ids.iter().enumerate() {
+                    let st = queue_of(pre, *q).and_then(|q| alloc_of(q, id)).map(|x| kind(&x.state)).unwrap_or("?");
+                    match r {
+                        None => hit(format!("status call-error x {st}")),
+                        Some(v) => hit(format!("status {} x {st}", status_letter(v[i]))),
+                    }
+                    let after = queue_of(post, *q).and_then(|q| alloc_of(q, id)).map(|x| kind(&x.state)).unwrap_or("?");
+                    if matches!(r, None) || matches!(r, Some(v) if v[i] == VerifStatus::Error) {
+                        if after == "FinishedUnexpectedly" {
+                            hit(format!("status-error threshold reached x {st}"));
+                        }
+                    }
+                }
+            }
+        }
+        Op::Tick { now } => {
+            match tick_res {
+                Some(None) => hit("tick: skipped (no active queue)".to_string()),
+                Some(Some(false)) => hit("tick: query error".to_string()),
+                _ => {}
+            }
+            if env.query_log.is_none() && tick_res == Some(Some(true)) {
+                hit("tick: no query (all paused by limits / no space)".to_string());
+            }
+            if let Some((_, Some(r))) = &env.query_log {
+                if r.single_node_workers_per_query.len() != env.expected_queries.len() {
+                    hit("tick: answer of wrong length".to_string());
+                }
+                if !r.multi_node_allocations.is_empty() {
+                    hit("tick: multi-node answer".to_string());
+                }
+            }
+            for q in &pre.queues {
+                let calls = env.submit_log.iter().filter(|(x, _, _)| *x == q.id).count();
+                let cls = if !q.active { "paused" }
+                    else if limits_reached(q) { "auto-paused by this tick" }
+                    else if calls > 0 { "submitted" }
+                    else if !has_space(q) { "no space" }
+                    else if !elapsed(q, *now) { "inside back-off" }
+                    else { "no demand / no permit / no answer" };
+                hit(format!("tick x queue {cls}"));
+                if calls > 1 { hit("tick x queue several submissions".to_string()); }
+                if let (Some(pq), true) = (queue_of(post, q.id), q.active) {
+                    if !pq.active { hit("tick: queue paused at end of tick".to_string()); }
+                }
+            }
+            for (_, _, r) in &env.submit_log {
+                hit(format!("submit result {}", match r { VerifSubmit::Ok(_) => "ok", VerifSubmit::Fail => "rejected", VerifSubmit::Err => "dir-error" }));
+            }
+        }
+        Op::RmQ { q, force } => {
+            let cls = match queue_of(pre, *q) {
+                None => "unknown queue",
+                Some(pq) if pq.allocations.iter().any(|a| matches!(a.state, VerifAllocState::Running { .. })) => "has running",
+                Some(pq) if pq.allocations.iter().any(|a| is_active(&a.state)) => "has queued only",
+                Some(_) => "no active allocation",
+            };
+            hit(format!("remove-queue(force={}) x {cls} -> {}", *force as u8, if resp_ok { "removed" } else { "refused" }));
+        }
+        Op::Pause { q } => hit(format!("pause x {}", queue_of(pre, *q).map(|x| if x.active { "active" } else { "paused" }).unwrap_or("unknown queue"))),
+        Op::Resume { q } => hit(format!("resume x {}", queue_of(pre, *q).map(|x| if x.active { "active" } else if limits_reached(x) { "paused by limits" } else { "paused by user" }).unwrap_or("unknown queue"))),
+        Op::AddQ { qid, limiter, .. } => hit(format!("add-queue({}, {})", if qid.is_some() { "explicit id" } else { "counter id" }, if limiter.is_some() { "test limiter" } else { "production limiter" })),
+        Op::Job => hit("job-submitted".to_string()),
+    }
 }
 
 #[derive(Default)]
@@ -1050,6 +1174,7 @@ impl Case {
         }
         match &result {
             Err(msg) => {
+                hit(format!("panic {}", panic_site(msg)));
                 tr.out(&format!("!panic {}", panic_site(msg)));
                 drop(env);
                 self.dead = true;
@@ -1073,6 +1198,7 @@ impl Case {
         for l in snapshot_lines(&post) {
             tr.out(&l);
         }
+        cover(op, &pre, &post, &env, resp_ok, tick_res);
         self.mon.check(op, &pre, &post, &events, &env, resp_ok, tick_res);
         for (c, s, d) in self.mon.fails.drain(..) {
             tr.mon_fail(&c, &s, &d);
@@ -1138,7 +1264,7 @@ fn probe_resume_mask() -> u64 {
 const PROFILES: [Profile; 6] = [
     Profile { name: "normal", p_fail: 15, p_dup: 0, status_w: [40, 25, 10, 10, 10, 5], p_callerr: 4, p_pert: 0, p_mn: 15 },
     Profile { name: "failing", p_fail: 65, p_dup: 0, status_w: [25, 10, 5, 45, 10, 5], p_callerr: 4, p_pert: 0, p_mn: 10 },
-    Profile { name: "errors", p_fail: 10, p_dup: 0, status_w: [15, 10, 5, 5, 60, 5], p_callerr: 25, p_pert: 0, p_mn: 10 },
+    Profile { name: "errors", p_fail: 10, p_dup: 0, status_w: [6, 6, 1, 1, 84, 2], p_callerr: 30, p_pert: 0, p_mn: 10 },
     Profile { name: "workers", p_fail: 5, p_dup: 0, status_w: [45, 40, 5, 5, 3, 2], p_callerr: 2, p_pert: 0, p_mn: 25 },
     Profile { name: "adversarial", p_fail: 20, p_dup: 12, status_w: [25, 20, 15, 15, 15, 10], p_callerr: 8, p_pert: 25, p_mn: 30 },
     Profile { name: "resume", p_fail: 80, p_dup: 0, status_w: [20, 10, 5, 55, 5, 5], p_callerr: 2, p_pert: 0, p_mn: 5 },
@@ -1183,9 +1309,15 @@ fn gen_case(tr: &mut Sink, idx: u64, subseed: u64, thorough: bool, rmask: u64, f
         } else {
             let add_w = if qids.len() >= 3 { 0 } else if qids.len() == 1 { 5 } else { 3 };
             let resume_w = if profile.name == "resume" || profile.name == "failing" { 9 } else { 4 };
-            let k = rng.weighted(&[add_w, 16, 16, 2, 3, 3, resume_w, 30, 14]) as u8;
-            if (k == 7 || k == 8) && rng.chance(1, 7) {
-                burst = Some((k, rng.range(3, if k == 8 { 24 } else { 12 })));
+            let mut k = rng.weighted(&[add_w, 16, 16, 2, 3, 3, resume_w, 30, 14]) as u8;
+            let any_active = snap.queues.iter().any(|q| q.active && q.allocations.iter().any(|a| is_active(&a.state)));
+            if k == 8 && !any_active && rng.chance(3, 4) {
+                // a refresh with nothing to ask is a no-op: mostly tick instead
+                k = 7;
+            }
+            let errors = profile.name == "errors";
+            if (k == 7 || k == 8) && rng.chance(1, if errors && k == 8 { 3 } else { 7 }) {
+                burst = Some((k, rng.range(3, if k == 8 { if errors { 34 } else { 24 } } else { 12 })));
             }
             k
         };
@@ -1277,6 +1409,131 @@ fn gen_case(tr: &mut Sink, idx: u64, subseed: u64, thorough: bool, rmask: u64, f
         c.apply(tr, &op);
     }
     tr.end();
+}
+
+// ------------------------------------------------------------------------------------------------
+// Small-scope exhaustive enumeration (thorough tier): one queue (backlog 2, 2 workers/allocation, at most 3 workers,
+// delays [0, 1000] ms, 2 failures allowed), a fixed alphabet of 17 operations, breadth-first over the distinct
+// implementation states (state hashing), every (state, operation) edge becomes one case = path + operation.
+// ------------------------------------------------------------------------------------------------
+
+#[derive(Clone, Copy, Debug, PartialEq)]
+enum XOp {
+    Tick { dt: u64, demand: Demand, ok: bool },
+    Refresh(VerifStatus),
+    Conn(u32),
+    Lost(u32, bool),
+    Pause,
+    Resume,
+    Remove(bool),
+}
+
+const ALPHABET: [XOp; 17] = [
+    XOp::Tick { dt: 0, demand: (3, 0, 0), ok: true },
+    XOp::Tick { dt: 0, demand: (3, 0, 0), ok: false },
+    XOp::Tick { dt: 1000, demand: (3, 0, 0), ok: true },
+    XOp::Tick { dt: 1000, demand: (1, 1, 2), ok: true },
+    XOp::Tick { dt: 999, demand: (0, 0, 0), ok: true },
+    XOp::Refresh(VerifStatus::Queued),
+    XOp::Refresh(VerifStatus::Running),
+    XOp::Refresh(VerifStatus::Finished),
+    XOp::Refresh(VerifStatus::Failed),
+    XOp::Refresh(VerifStatus::Error),
+    XOp::Conn(1),
+    XOp::Conn(2),
+    XOp::Lost(1, true),
+    XOp::Lost(2, false),
+    XOp::Pause,
+    XOp::Resume,
+    XOp::Remove(false),
+];
+
+/// Runs `path` on a fresh implementation; returns the canonical key of the reached state (`None` after a panic).
+fn run_path(tr: &mut Sink, idx: u64, path: &[XOp], rmask: u64) -> Option<String> {
+    let consts = hk::constants();
+    tr.case(idx, 0, &format!(
+        "qerr={} rerr={} rmask={rmask} nextq=1 profile=exhaustive depth={}",
+        consts.max_queued_status_error_count, consts.max_running_status_error_count, path.len()
+    ));
+    let profile = Profile { name: "exhaustive", ..Default::default() };
+    let mut c = Case::new(0, false, profile, 1);
+    c.apply(tr, &Op::AddQ { bl: 2, wpa: 2, mwc: Some(3), limiter: Some((vec![0, 1000], 2, 2)), qid: None, pbs: false });
+    for x in path {
+        if c.dead {
+            break;
+        }
+        let snap = c.snapshot();
+        // the oldest active allocation (else allocation 1: finished, removed or unknown)
+        let target = snap.queues.iter().flat_map(|q| q.allocations.iter()).filter(|a| is_active(&a.state)).map(|a| aid(&a.id)).min().unwrap_or(1);
+        let op = match *x {
+            XOp::Tick { dt, demand, ok } => {
+                let mut env = c.env.borrow_mut();
+                env.fixed = Some((ok, VerifStatus::Queued));
+                env.demand.clear();
+                env.demand.insert(1, demand);
+                Op::Tick { now: env.now + dt }
+            }
+            XOp::Refresh(st) => {
+                c.env.borrow_mut().fixed = Some((true, st));
+                Op::Refresh
+            }
+            XOp::Conn(w) => Op::WConn { w, a: target },
+            XOp::Lost(w, crash) => Op::WLost { w, a: target, reason: if crash { LostWorkerReason::ConnectionLost } else { LostWorkerReason::Stopped }, life: if crash { 1000 } else { 3_600_000 } },
+            XOp::Pause => Op::Pause { q: 1 },
+            XOp::Resume => Op::Resume { q: 1 },
+            XOp::Remove(force) => Op::RmQ { q: 1, force },
+        };
+        c.apply(tr, &op);
+    }
+    tr.end();
+    if c.dead {
+        return None;
+    }
+    // state key: the snapshot, with the clock reduced to "time since the last attempt, capped at the largest delay"
+    let snap = c.snapshot();
+    let now = c.env.borrow().now;
+    let mut key = String::new();
+    for q in &snap.queues {
+        let since = q.limiter.last_submission_ms.map(|t| (now - t).min(1000));
+        key.push_str(&format!("{}|{}|{:?}|{}|{}|{}|", q.active, q.limiter.current_delay, since, q.limiter.allocation_fails, q.limiter.submission_fails, q.has_worker_resources));
+        for a in sorted_allocs(q) {
+            // allocation ids are renamed by position; finished allocations only matter by kind
+            key.push_str(&alloc_line(0, a).splitn(3, ' ').nth(2).unwrap_or("").replacen(&format!("{} ", a.id), "", 1));
+            key.push(';');
+        }
+    }
+    key.push_str(&format!("#a2q={}", snap.allocation_to_queue.len()));
+    Some(key)
+}
+
+fn exhaustive(out: &mut Sink, shard: u64, nshards: u64, depth: usize, max_edges: u64, rmask: u64) {
+    let mut muted = Sink { tr: None };
+    let mut seen: std::collections::HashSet<String> = Default::default();
+    let mut frontier: VecDeque<Vec<XOp>> = VecDeque::new();
+    if let Some(k) = run_path(&mut muted, 0, &[], rmask) {
+        seen.insert(k);
+    }
+    frontier.push_back(vec![]);
+    let mut edges: u64 = 0;
+    while let Some(path) = frontier.pop_front() {
+        for x in ALPHABET {
+            if edges >= max_edges {
+                eprintln!("autoalloc exhaustive: edge budget {max_edges} reached (states {})", seen.len());
+                return;
+            }
+            let mut p2 = path.clone();
+            p2.push(x);
+            let mine = edges % nshards == shard;
+            edges += 1;
+            let key = if mine { run_path(out, 9_000_000 + edges, &p2, rmask) } else { run_path(&mut muted, 0, &p2, rmask) };
+            if let Some(k) = key {
+                if p2.len() < depth && seen.insert(k) {
+                    frontier.push_back(p2);
+                }
+            }
+        }
+    }
+    eprintln!("autoalloc exhaustive: depth {depth}: {} distinct states, {edges} edges", seen.len());
 }
 
 // ------------------------------------------------------------------------------------------------
@@ -1428,6 +1685,18 @@ pub fn main(mode: &str, args: &[String]) {
             for k in 0..a.cases {
                 let subseed = a.case_seed(k);
                 gen_case(&mut tr, a.shard * 1_000_000 + k, subseed, a.thorough, rmask, profile.as_deref());
+            }
+            if a.thorough || a.has("--exhaustive") {
+                let depth = a.value("--depth").and_then(|v| v.parse().ok()).unwrap_or(8);
+                let max_edges = a.value("--max-edges").and_then(|v| v.parse().ok()).unwrap_or(60_000);
+                exhaustive(&mut tr, a.shard, a.nshards, depth, max_edges, rmask);
+            }
+            if a.has("--cover") {
+                COVER.with(|c| {
+                    for (k, v) in c.borrow().iter() {
+                        eprintln!("{v:>8}  {k}");
+                    }
+                });
             }
         }
         "case" => {
